@@ -241,7 +241,7 @@ def r_names(ctx, model):
 def r_apply(ctx, model):
     """apply_symetry_on_elast_data evaluated on a symbolic static table: keys -> cIJ names ->
     fill_cij(df, **symmetry) -> canonical keys, every volume entry rebuilt from its own row"""
-    from ..dfmodel import DFV, SeqV, DF_LIB
+    from ..dfmodel import DFV, SeqV, DF_LIB, df_wrap
     from ..facts import KeyObj, c_intrinsic
     from ..sym import Ev, Obj, DictV, LibV, Tup
     ref = "cij.io.traditional.elast_dat:apply_symetry_on_elast_data"
@@ -267,7 +267,7 @@ def r_apply(ctx, model):
 
     intr = {"cij.util.fill:fill_cij": fill, "cij.c_": c_intrinsic}
     for kname, fn in DF_LIB.items():
-        intr[kname] = (lambda g: (lambda ev, a, k: g(ev, a, k, None, None)))(fn)
+        intr[kname] = df_wrap(fn)
         intr["builtins." + kname] = intr[kname]
     ev = Ev(model, {("global", "cij.util:c_"): LibV("cij.c_")}, intr, ctx=ctx)
     symmetry = DictV({"system": "cubic", "ignore_rank": True})
